@@ -439,14 +439,14 @@ fn apply_ops(mut e: BytesStart, mut name: String, mut attrs: Vec<(String, String
 // ElementWriter sequences
 
 #[derive(Clone, Copy, Debug, PartialEq, Eq)]
-enum EOp {
+pub enum EOp {
     Attr(u8),
     Attrs,
     NewLine,
 }
 
 #[derive(Clone, Copy, Debug, PartialEq, Eq)]
-enum EFin {
+pub enum EFin {
     Empty,
     Text,
     CData,
@@ -454,7 +454,7 @@ enum EFin {
     Inner(u8), // nested element kind
 }
 
-fn element_writer(pre: &[EOp], fin: EFin, indent: Option<(u8, usize)>) -> Result<Vec<u8>, String> {
+pub fn element_writer(pre: &[EOp], fin: EFin, indent: Option<(u8, usize)>) -> Result<Vec<u8>, String> {
     let r = guarded(|| -> Result<Vec<u8>, String> {
         let mut w = match indent {
             None => Writer::new(Vec::new()),
